@@ -535,16 +535,17 @@ impl<'a> Interp<'a> {
 
 	/// environment for members of layer `li` of `this`: creation env + object context + object locals
 	fn member_env(&mut self, this: &Rc<ObjVal<'a>>, li: usize) -> R<Env<'a>> {
-		let Layer::Fields { env, locals, id, .. } = &*this.layers[li] else {
+		let Layer::Fields { env, locals, .. } = &*this.layers[li] else {
 			unreachable!()
 		};
-		if let Some(e) = this.local_envs.borrow().get(id) {
+		// keyed by the *position* of the layer in this object: one layer value may occur at several positions
+		if let Some(e) = this.local_envs.borrow().get(&li) {
 			return Ok(e.clone());
 		}
 		let dollar = env_objctx(env).map_or_else(|| this.clone(), |c| c.dollar);
 		let e1: Env<'a> = Rc::new(EnvNode::Obj(ObjCtx { this: this.clone(), layer: li, dollar }, env.clone()));
 		let e2 = self.bind_locals(&e1, locals)?;
-		this.local_envs.borrow_mut().insert(*id, e2.clone());
+		this.local_envs.borrow_mut().insert(li, e2.clone());
 		Ok(e2)
 	}
 
